@@ -13,7 +13,7 @@ from vsym import triggers
 from vsym.pathex import And, Eq, Or
 from vsym.runner import Ob
 
-ORDER = ["dup1.py", "dup2.py", "strg1.py", "strg2.py", "nest.py", "magic.ts", "printy.js", "unwrap.rs"] + \
+ORDER = ["dup1.py", "dup2.py", "strg1.py", "strg2.py", "nest.py", "magic.ts", "printy.js", "unwrap.rs", "square.ts", "cube.rs"] + \
     ["extra%02d.py" % i for i in range(26)]
 _P = {}
 
@@ -23,6 +23,9 @@ def _proj():
         d = tempfile.mkdtemp(prefix="c07proj-")
         atexit.register(shutil.rmtree, d, True)
         triggers.write_project(d, names=set(ORDER))
+        # several findings that are identical in every field (same literal twice on one line, column 0)
+        (Path(d) / "src" / "square.ts").write_text("function area(): number {\n  const a = 37 * 37;\n  return a;\n}\n")
+        (Path(d) / "src" / "cube.rs").write_text("fn volume() -> i64 {\n    let v = 41 * 41 * 41;\n    v\n}\n")
         for i in range(26):   # cheap per-file findings, every file different
             (Path(d) / "src" / ("extra%02d.py" % i)).write_text(
                 "def price%d(q):\n    print(q)\n    return q * %d\n" % (i, 7001 + i))
@@ -174,7 +177,7 @@ ASSUMPTIONS = (
 
 
 def obligations(tier):
-    nmax = (0, 1, 2, 3, 4, 6, 8, 18, 33) if tier == "quick" else tuple(range(0, 13)) + (15, 16, 17, 18, 19, 24, 31, 32, 33, 34)
+    nmax = (0, 1, 2, 3, 4, 6, 8, 10, 20, 35) if tier == "quick" else tuple(range(0, 13)) + (15, 16, 17, 18, 19, 20, 21, 24, 31, 32, 33, 34, 35, 36)
     return [
         Ob(name="K1-lint_files_parallel-vs-lint_files", engine="pathex", harness=make_h_api(nmax),
            functions=["Orchestrator.lint_files_parallel", "_execute_parallel_linting", "_lint_file_worker",
